@@ -236,12 +236,13 @@ class Model_cfit_cached(Model_cfit):
                 for i in mcdata
             ]
 
+        # the signal integral includes the efficiency, as in Model_cfit
         int_sig, g_int_sig = sum_gradient_data2(
             self.cached_amp,
             self.Amp.trainable_variables,
             mcdata,
             self.cached_data[mc_id],
-            weight=mc_weight,
+            weight=[w * self.eff(d) for d, w in zip(mcdata, mc_weight)],
         )
 
         int_bg, g_int_bg = sum_gradient(self.bg, mcdata, var, mc_weight)
